@@ -32,8 +32,13 @@ pub enum Lookup {
 pub struct FrameProbe(Frame);
 
 impl FrameProbe {
-    /// Calls `Frame::new`
-    pub fn new(local_count: u8, args: &[ArgKind], captures: &[u32], is_generator: bool) -> Self {
+    /// Calls `Frame::new`, `None` on error
+    pub fn new(
+        local_count: u8,
+        args: &[ArgKind],
+        captures: &[u32],
+        is_generator: bool,
+    ) -> Option<Self> {
         let args: Vec<Arg> = args
             .iter()
             .map(|arg| match arg {
@@ -44,7 +49,8 @@ impl FrameProbe {
             .collect();
         let captures: Vec<ConstantIndex> =
             captures.iter().map(|id| ConstantIndex::from(*id)).collect();
-        Self(Frame::new(local_count, &args, &captures, None, is_generator))
+        FrameResultLike::into_option(Frame::new(local_count, &args, &captures, None, is_generator))
+            .map(Self)
     }
 
     /// The first temporary register
@@ -92,5 +98,23 @@ impl FrameProbe {
     /// Calls `Frame::registers_used`
     pub fn registers_used(&self) -> u8 {
         self.0.registers_used()
+    }
+}
+
+/// Lets the `Frame::new` hook compile whether or not the constructor reports errors
+pub trait FrameResultLike {
+    /// `Some` for a frame and for `Ok(frame)`
+    fn into_option(self) -> Option<Frame>;
+}
+
+impl FrameResultLike for Frame {
+    fn into_option(self) -> Option<Frame> {
+        Some(self)
+    }
+}
+
+impl FrameResultLike for Result<Frame, FrameError> {
+    fn into_option(self) -> Option<Frame> {
+        self.ok()
     }
 }
